@@ -258,11 +258,15 @@ pub fn install_panic_hook() {
     }));
 }
 
-/// digits -> N so that messages are stable
+/// digits -> N, quoted / back-quoted text (which repeats the input) dropped, so that messages are stable
 fn normalise_msg(msg: &str) -> String {
+    // keep only the part before the first piece of quoted input
+    let cut = msg.find(|c| c == '`' || c == '\'' || c == '"').unwrap_or(msg.len());
+    let head = msg[..cut].trim_end_matches(|c: char| c.is_whitespace() || c == ';' || c == ':' || c == ',');
+    let head = head.trim_end_matches(" it is inside").trim_end_matches(" of");
     let mut out = String::new();
     let mut in_digits = false;
-    for c in msg.chars().take(120) {
+    for c in head.chars().take(100) {
         if c.is_ascii_digit() {
             if !in_digits {
                 out.push('N');
@@ -270,8 +274,8 @@ fn normalise_msg(msg: &str) -> String {
             in_digits = true;
         } else {
             in_digits = false;
-            if c == '\n' {
-                out.push(' ');
+            if c.is_whitespace() {
+                out.push('_');
             } else {
                 out.push(c);
             }
@@ -344,7 +348,8 @@ pub fn shrink_case<M: Monitor>(m: &M, env: &Env, case: M::Case, first: &Checked)
     let start = std::time::Instant::now();
     loop {
         let mut improved = false;
-        for cand in m.shrink(&best) {
+        // `shrink` and `sample` may call into scrut (to render a case): a panic there must not kill the worker
+        for cand in catch(|| m.shrink(&best)).unwrap_or_default() {
             if budget == 0 || start.elapsed().as_secs() > 20 {
                 return (best, best_checked);
             }
@@ -387,7 +392,7 @@ impl<M: Monitor> DynMonitor for Erased<M> {
         let checked = checked_catch(&self.0, env, &case);
         if checked.is_violated() {
             let (case, checked) = shrink_case(&self.0, env, case, &checked);
-            let sample = self.0.sample(&case);
+            let sample = catch(|| self.0.sample(&case)).unwrap_or(Value::Null);
             CaseResult {
                 checked,
                 case: serde_json::to_value(&case).unwrap_or(Value::Null),
@@ -396,7 +401,7 @@ impl<M: Monitor> DynMonitor for Erased<M> {
         } else {
             let need_case = matches!(checked.verdict, Verdict::Inconclusive(_));
             CaseResult {
-                sample: if want_sample { self.0.sample(&case) } else { Value::Null },
+                sample: if want_sample { catch(|| self.0.sample(&case)).unwrap_or(Value::Null) } else { Value::Null },
                 case: if need_case {
                     serde_json::to_value(&case).unwrap_or(Value::Null)
                 } else {
@@ -418,7 +423,7 @@ impl<M: Monitor> DynMonitor for Erased<M> {
         let checked = checked_catch(&self.0, env, &case);
         Ok(CaseResult {
             checked,
-            sample: self.0.sample(&case),
+            sample: catch(|| self.0.sample(&case)).unwrap_or(Value::Null),
             case: serde_json::to_value(&case).unwrap_or(Value::Null),
         })
     }
